@@ -1,7 +1,7 @@
 (* C01: the statements translated from JSONRPCConnection._receive_response / _receive_response_batch do what the
    model's receive_response / receive_response_batch do (live future), and consume the late response to an abandoned
    request quietly. *)
-From AV Require Import Base Utf8 Json Codec Conn Gen_jsonrpc ConnCode.
+From AV Require Import Base Utf8 Json Codec Conn Gen_jsonrpc ConnCode ConnProofs.
 Local Open Scope Z_scope.
 
 Lemma response_code_known : rknown 4 receive_response_code && rknown 4 receive_response_batch_code = true.
@@ -217,3 +217,11 @@ Qed.
 
 Theorem generated_receive_message_is_model c msg : receive_message_generated c msg = MFinished (receive_message c msg).
 Proof. rewrite generated_receive_message. f_equal. apply receive_message_from_source. Qed.
+
+(* the run of the translated dispatcher never ends in an escaping exception *)
+Theorem translated_receive_total c msg :
+  exists o c', receive_message_generated c msg = MFinished (o, c') /\ o <> REscape.
+Proof.
+  rewrite generated_receive_message_is_model. destruct (receive_message c msg) as [o c'] eqn:E.
+  exists o, c'. split; [reflexivity|]. intros H. apply (receive_total c msg). now rewrite E.
+Qed.
